@@ -34,6 +34,9 @@ def csPreds : Preds (Option Workload) where
       match calcCtx (obsOf br br.status w) with
       | .ok c => exposure c.knobDes w.replicas
       | .panic => 0
+  claimed := fun _ _ wl' => match wl' with
+    | some w => decide (w.owner = .this)
+    | none => false
 
 /-! ### partition-style Deployment -/
 
@@ -54,6 +57,9 @@ def pdepPreds : Preds PDepW where
        | some r => calcBatchReplicas r e
        | none => 0)
     | _, _ => 0
+  claimed := fun _ _ w' => match w'.dep with
+    | some d => CtlPDeploy.isUnderRolloutControl d
+    | none => false
 
 /-! ### StatefulSet-like / DaemonSet -/
 
@@ -78,8 +84,11 @@ def stsPreds : Preds StsW where
     | none => true
     | some wl =>
       match CtlSts.replicasOf wl with
-      | some r => decide (0 ≤ r) && RV.Oracle.CtlSts.nnOK r br.status.noNeedUpdate
+      | some r => RV.Oracle.CtlSts.sizeOK r && RV.Oracle.CtlSts.nnOK r br.status.noNeedUpdate
       | none => false
+  claimed := fun _ _ w' => match w'.wl with
+    | some wl => decide (wl.control = .this)
+    | none => false
 
 /-! ### blue-green -/
 
@@ -117,6 +126,14 @@ def bgPreds (kind : CtlBlueGreen.Kind) : Preds BGW where
   expoOK := fun _ w => match w.w.wl with
     | some wl => RV.Oracle.CtlBlueGreen.held wl && (CtlBlueGreen.ruSurge wl.ru).isSome
     | none => true
+  -- under this BatchRelease's control; when it was not before, with the saved settings and the blue-green hold installed
+  claimed := fun _ w w' => match w.w.wl, w'.w.wl with
+    | some wl, some wl' =>
+      bgControlled wl' &&
+      (bgControlled wl ||
+       (decide (wl'.minReadySeconds = CtlBlueGreen.maxReady) && decide (CtlBlueGreen.ruUnavailable wl'.ru = some (int 0)) &&
+        decide (wl'.saved ≠ .none)))
+    | _, _ => false
 
 /-! ### canary-style Deployment -/
 
@@ -134,6 +151,12 @@ def canaryPreds : Preds CanaryW where
   exposure := fun w => (canaryOwnedReplicas w.w).foldl max 0
   allowed := fun br w => (RV.Oracle.CtlCanary.target (canaryBR br w) w.w).getD 0
   wf := fun w => RV.Oracle.CtlCanary.namesNodup w.w
+  -- the stable Deployment is under this BatchRelease's control and a canary Deployment of it exists
+  claimed := fun _ _ w' =>
+    (match w'.w.find 0 with
+     | some st => CtlCanary.isControlledBy st
+     | none => false) &&
+    w'.w.deps.any (fun d => RV.Oracle.CtlCanary.owned d && !d.deleting)
 
 /-! ### a ReplicaSet reference -/
 
@@ -142,5 +165,6 @@ def rsPreds : Preds Bool where
   released := fun _ _ => true
   exposure := fun _ => 0
   allowed := fun _ _ => 0
+  claimed := fun _ _ _ => false
 
 end RV.Oracle.ExecutorX
